@@ -218,35 +218,64 @@ func init() {
 			}
 			// gen is the default exactly when there is no first argument or it is not a command name
 			for _, cl := range fi.callsTo("os.Exit") {
-				gs := fi.Guards(cl)
-				// the default-gen exit sits inside the if; the subcommand exit is what remains after it
-				inIf := false
-				for _, g := range gs {
-					if is, ok := g.At.(*ast.IfStmt); ok && fi.within(cl, is.Body) {
-						inIf = true
+				// the default-gen exit is the one whose status is genCmd.Execute's
+				isGen := false
+				for _, in := range callsIn(cl.Args[0]) {
+					if fi.calleeName(in) == pathCmd+".genCmd.Execute" {
+						isGen = true
 					}
 				}
-				if !inIf {
+				if !isGen {
 					continue
 				}
-				okG := false
-				if len(gs) == 1 && !gs[0].Neg {
-					if be, ok := ast.Unparen(gs[0].Expr).(*ast.BinaryExpr); ok && be.Op == token.LOR {
-						l, isLen := ast.Unparen(be.X).(*ast.BinaryExpr)
-						u, isNot := ast.Unparen(be.Y).(*ast.UnaryExpr)
-						if isLen && isNot && l.Op == token.EQL && types.ExprString(l.Y) == "0" && u.Op == token.NOT {
-							if lc := fi.isBuiltin(l.X, "len"); lc != nil {
-								if ix, ok := ast.Unparen(u.X).(*ast.IndexExpr); ok {
-									if _, isMap := fi.Info.TypeOf(ix.X).Underlying().(*types.Map); isMap {
-										if ax, ok := ast.Unparen(ix.Index).(*ast.IndexExpr); ok && types.ExprString(ax.Index) == "0" && fi.sameExpr(ax.X, lc.Args[0]) {
-											okG = true
-										}
-									}
-								}
-							}
+				// its guards, whichever way round they are written (`if none || !known {gen}` before the dispatch, or
+				// after `if some && known {dispatch}`), are true exactly when there is no first argument or it is
+				// not a command name
+				var argv ast.Expr
+				sameArgv := true
+				atom := func(e ast.Expr) (string, bool) {
+					switch x := ast.Unparen(e).(type) {
+					case *ast.BinaryExpr:
+						lc := fi.isBuiltin(x.X, "len")
+						if lc == nil || types.ExprString(x.Y) != "0" {
+							return "", false
+						}
+						if argv != nil && !fi.sameExpr(argv, lc.Args[0]) {
+							sameArgv = false
+						}
+						argv = lc.Args[0]
+						switch x.Op {
+						case token.EQL:
+							return "none", true
+						case token.GTR, token.NEQ:
+							return "none", false
+						}
+					case *ast.IndexExpr:
+						if _, isMap := fi.Info.TypeOf(x.X).Underlying().(*types.Map); !isMap {
+							return "", false
+						}
+						ax, ok := ast.Unparen(x.Index).(*ast.IndexExpr)
+						if !ok || types.ExprString(ax.Index) != "0" {
+							return "", false
+						}
+						if argv != nil && !fi.sameExpr(argv, ax.X) {
+							sameArgv = false
+						}
+						argv = ax.X
+						return "known", true
+					}
+					return "", false
+				}
+				okG := true
+				for _, none := range []bool{false, true} {
+					for _, known := range []bool{false, true} {
+						v, ok := evalGuards(fi.Guards(cl), map[string]bool{"none": none, "known": known}, atom)
+						if !ok || v != (none || !known) {
+							okG = false
 						}
 					}
 				}
+				okG = okG && sameArgv && argv != nil
 				r.Check(okG, "default-gen-condition", cl.Pos(), "gen runs by default exactly when there is no first argument or it is not a command name")
 			}
 			r.Check(exits == 2, "exits", fi.Decl.Pos(), "both the default-gen path and the subcommand path end in os.Exit (%d)", exits)
